@@ -28,6 +28,7 @@ type histParams struct {
 	Adversarial  bool `json:"adversarial"`   // C02: named tree + raw header/block events
 	StartUnknown bool `json:"start_unknown"` // start hash is a block the node has not seen at boot (pre-start mode)
 	ExtraDepth int  `json:"extra_depth"`
+	FailAt int      `json:"fail_at,omitempty"` // the FailAt-th storage operation returns an error
 	Prefix []string `json:"prefix,omitempty"` // events applied after the boot, before the explored history (a non-initial start state)
 	Plan   []planStep     `json:"plan,omitempty"`    // sched mode: deviations inserted at scheduling points
 	SelAlt map[string]int `json:"sel_alt,omitempty"` // sched mode: alternatives at multi-ready selects // explore this scenario deeper than the check's base depth
@@ -265,6 +266,7 @@ func (w *World) drainConverge() (bool, string) {
 		return true, ""
 	}
 	// allow the node's own request time-outs to fire (headers 60 s, blocks 600 s) and retry
+	w.drainTimeouts = true
 	for _, d := range []time.Duration{61 * time.Second, 10 * time.Second, 601 * time.Second, 10 * time.Second} {
 		w.Tick(d)
 		if phase(25) {
@@ -359,6 +361,7 @@ func vrtGoEnv(label string, f func()) interface{} { return goEnv(label, f) }
 // runHist executes hist from the initial state of the scenario.
 func runHist(p histParams, hist []string, withDrain bool) *histRun {
 	w := NewWorld(p.Cfg)
+	w.Store.FailAt = p.FailAt
 	r := &histRun{w: w}
 	w.onCallback = func(h int, e cbEvent) {
 		if e.Kind == "insync" && h == 0 {
@@ -497,7 +500,7 @@ func (w *World) eventEnabled(ev string) bool {
 		return w.P != nil && w.P.conn != nil && !w.P.conn.IsClosed()
 	case "dup":
 		return w.P != nil && len(w.P.sentLog) > 0
-	case "uh", "uinv", "utx", "ublock", "uaddr", "ugarbage":
+	case "uh", "uinv", "utx", "uxtx", "ublock", "uxblock", "uaddr", "ugarbage":
 		pc := w.U[untrustedAddrs[0]]
 		return pc != nil && pc.conn != nil && !pc.conn.IsClosed() && !pc.conn.Peer.IsClosed()
 	case "h", "b":
